@@ -85,7 +85,7 @@ def check_body(ck, rid, facts, r, op, ks, num, fields, ev):
             ck.fail(rid, short + tag, "operator does not return a %s value on this path: %s" % (num.split("::")[-1], cel.vfmt(val)[:120]), where)
             continue
         for fld in fields:
-            g = val.fields.get(fld)
+            g = cel.unq(val.fields.get(fld))        # `%` and the truncated-quotient formula are one calculus rule
             w = want[fld]
             ok = isinstance(g, Poly) and g == w
             ck.check(rid, "%s%s:%s" % (short, tag, fld), ok,
@@ -139,6 +139,7 @@ def run(ck, facts, tier):
     # composition to arbitrary expression trees is by induction over aligned operands: C03's alignment rules are necessary conditions here too
     from rules import deps
     deps.include_alignment(ck, facts, tier)
+    deps.include_number_surface(ck, facts, tier)
     ck.not_decided += ["IEEE rounding; the kernels f64::exp/ln/powf and statrs Normal::{cdf,inverse_cdf} are atoms", "domain edges (division by zero, log of non-positive)",
                        "composition to arbitrary expression trees follows by induction given C03's alignment rules; it is not separately evaluated"]
     ck.trusted += ["lib/oracle.py 12-row derivative table + composition formula", "lib/cel.py normaliser"]
